@@ -942,6 +942,78 @@ func curveFormsFamily(budget time.Duration) mc.Family {
 	}
 }
 
+// nearAxisFamily: segments that are almost, but not quite, horizontal or
+// vertical, and curves whose start and end tangents are (almost) parallel to
+// the SAME axis (S-shapes, which no short curve operator can express) or to
+// different ones.  The small component d runs over values below, around and
+// above every tolerance an encoder might use (1e-6, 1/214, 0.005, 1/107, 0.01).
+var nearAxisDeltas = func() []*big.Rat {
+	out := []*big.Rat{new(big.Rat)}
+	for _, s := range []string{"1/10000000", "1/500000", "1/1000", "1/250", "23/5000", "6/1250", "51/10000", "3/500", "3/400", "9/1000", "47/5000", "1/100", "3/100"} {
+		r, _ := new(big.Rat).SetString(s)
+		out = append(out, r, new(big.Rat).Neg(r))
+	}
+	return out
+}()
+
+var tangentNames = []string{"h", "v"}
+
+func nearAxisFamily(budget time.Duration) mc.Family {
+	nd := len(nearAxisDeltas)
+	return mc.Family{
+		Name: "near-axis-segments-and-tangents", Items: 4 * nd, Budget: budget,
+		Rule: fmt.Sprintf("item = (start tangent of the curve nearly horizontal|vertical, end tangent nearly horizontal|vertical, small component da of the start tangent); choice = small component db of the end tangent; da, db from %d values {0, +-1e-7, +-2e-6, +-0.001, +-0.004, +-0.0046, +-0.0048, +-0.0051, +-0.006, +-0.0075, +-0.009, +-0.0094, +-0.01, +-0.03}; path = moveto, nearly horizontal line (dy = da), the curve, nearly vertical line (dx = db), a second contour reached by a nearly vertical moveto (dx = da), nearly horizontal line (dy = db), closepath; encoder -> exact reconstruction and library decoder: every absolute coordinate within 1/214 of the requested one; non-trivial = da or db non-zero", nd),
+		Body: func(c *mc.Ctx, item int) mc.Verdict {
+			da := nearAxisDeltas[item%nd]
+			st, en := (item/nd)%2, item/nd/2
+			db := nearAxisDeltas[c.Choose(nd)]
+			R := func(n int64) *big.Rat { return big.NewRat(n, 1) }
+			p := newPath()
+			x, y := p.advance(R(100), R(50))
+			p.g.MoveTo(x, y)
+			x, y = p.advance(R(20), da)
+			p.g.LineTo(x, y)
+			tangent := func(kind int, small *big.Rat, long int64) (*big.Rat, *big.Rat) {
+				if kind == 0 { // nearly horizontal: dy small
+					return R(long), small
+				}
+				return small, R(long)
+			}
+			d1x, d1y := tangent(st, da, 10)
+			d3x, d3y := tangent(en, db, 12)
+			x1, y1 := p.advance(d1x, d1y)
+			x2, y2 := p.advance(R(20), R(25))
+			x3, y3 := p.advance(d3x, d3y)
+			p.g.CurveTo(x1, y1, x2, y2, x3, y3)
+			x, y = p.advance(db, R(-15))
+			p.g.LineTo(x, y)
+			p.g.ClosePath()
+			x, y = p.advance(da, R(30))
+			p.g.MoveTo(x, y)
+			x, y = p.advance(R(-9), db)
+			p.g.LineTo(x, y)
+			x, y = p.advance(R(5), R(5))
+			p.g.LineTo(x, y)
+			p.g.ClosePath()
+			what := func() string {
+				return fmt.Sprintf("curve with start tangent nearly %s (small component %s) and end tangent nearly %s (small component %s): %s", tangentNames[st], da.RatString(), tangentNames[en], db.RatString(), t1fontsDump(p.g))
+			}
+			res, v := checkPath(p, what)
+			c.Step()
+			if v != nil {
+				v.Key += ":near-axis:" + tangentNames[st] + tangentNames[en]
+				v.Render = what()
+				return *v
+			}
+			out := mc.Pass("near-axis/"+tangentNames[st]+tangentNames[en]+"/"+errClass(res.maxErr)+shimNote(), da.Sign() != 0 || db.Sign() != 0)
+			if c.Render() {
+				out.Render = what() + fmt.Sprintf(" max error %g", res.maxErr)
+			}
+			return out
+		},
+	}
+}
+
 func t1fontsDump(g *type1.Glyph) string {
 	var sb strings.Builder
 	for _, cmd := range g.Cmds {
@@ -1108,6 +1180,7 @@ func main() {
 				},
 			})
 			fams = append(fams, curveFormsFamily(budget))
+			fams = append(fams, nearAxisFamily(budget))
 			fams = append(fams, mc.Family{
 				Name: "drift-long-paths", Items: numLetters * len(formats), Budget: budget,
 				Rule: "item = one (delta, kind) x file format: a path of 10,000 such segments; encoder -> exact reconstruction and library decoder on the full path (format index 0), and Font.Write -> Read and -> independent decoder in each format (on the longest prefix whose charstring fits the 65535-byte PostScript string limit): every absolute coordinate within 1/214 of the requested one; non-trivial = all",
